@@ -31,7 +31,7 @@ from ..model import namedtuple_fields, walk_no_nested
 from ..sval import NONE, const, mk_cond, same, strip_ids
 from .. import tq
 from . import common
-from .c04 import RFC_ORDER, fmt_sizes
+from .c04 import RFC_ORDER, Split
 
 EXPLANATION = ('static analysis: provenance and orientation of every operand with a role subscript (i/r, my/peer, in/out, '
                'src/dst) at the key-derivation sites, the ChildSa construction sites and the two kernel SA installations, the '
@@ -130,9 +130,9 @@ def run(ctx):
     ok = tq.is_call(kr, 'namedtuple.Keyring')
     if ok:
         a = tq.args(kr)
-        first = a.get(RFC_ORDER[0])
-        U = first[1] if first is not None and first[0] == 'index' else None
-        ok = U is not None and tq.is_call(U, 'struct.unpack') and all(a.get(n) == idx(U, i) for i, n in enumerate(RFC_ORDER))
+        sp = Split(V, [a.get(n) for n in RFC_ORDER])
+        ok = sp.kind is not None and sp.sizes(ctx, gk, {'prf': 5, 'integ': 7, 'encr': 11}) == [5, 7, 7, 11, 11, 5, 5]
+        U = a if ok else None
     ctx.check(ok, 'O1', 'the SK_* material is split in RFC order SK_d|SK_ai|SK_ar|SK_ei|SK_er|SK_pi|SK_pr and returned in the '
               'like-named Keyring fields', key=('O1', 'split-order'), site=ctx.site(gk, gk.node),
               detail={'returned': tq.text(kr)})
@@ -149,9 +149,9 @@ def run(ctx):
     if U is not None:
         for c in cr:
             keys = tuple(c.args.get(p) for p in ('sk_e', 'sk_a', 'sk_p'))
-            if keys == (idx(U, 3), idx(U, 1), idx(U, 5)):
+            if keys == (U['sk_ei'], U['sk_ai'], U['sk_pi']):
                 dirs['i'] = c.term
-            elif keys == (idx(U, 4), idx(U, 2), idx(U, 6)):
+            elif keys == (U['sk_er'], U['sk_ar'], U['sk_pr']):
                 dirs['r'] = c.term
     ctx.check(len(cr) == 2 and set(dirs) == {'i', 'r'}, 'O1', 'two Crypto objects: one from (SK_ei, SK_ai, SK_pi), one from '
               '(SK_er, SK_ar, SK_pr), each key in the like-named parameter', key=('O1', 'crypto-objects'), site=ctx.site(gk, gk.node),
@@ -279,14 +279,9 @@ def run(ctx):
     ok = tq.is_call(kr, 'namedtuple.Keyring')
     if ok:
         a = tq.args(kr)
-        first = a.get('sk_ei')
-        U2 = first[1] if first is not None and first[0] == 'index' else None
-        ok = U2 is not None and tq.is_call(U2, 'struct.unpack') and \
-            [a.get(n) for n in RFC_ORDER] == [NONE, idx(U2, 1), idx(U2, 3), idx(U2, 0), idx(U2, 2), NONE, NONE]
-        if ok:
-            up = [c for c in G.calls if c.term == U2]
-            sizes = fmt_sizes(ctx, gc, up[0], {'encr': 11, 'integ': 7}) if up else None
-            ok = sizes == [11, 7, 11, 7]
+        sp = Split(G, [a.get(n) for n in ('sk_ei', 'sk_ai', 'sk_er', 'sk_ar')])
+        ok = sp.kind is not None and [a.get(n) for n in ('sk_d', 'sk_pi', 'sk_pr')] == [NONE, NONE, NONE] \
+            and sp.sizes(ctx, gc, {'encr': 11, 'integ': 7}) == [11, 7, 11, 7]
     ctx.check(ok, 'O4', 'KEYMAT is split as SK_ei|SK_ai|SK_er|SK_ar (initiator-to-responder keys first) and stored at the like-named '
               'Keyring positions', key=('O4', 'split'), site=ctx.site(gc, gc.node), detail={'returned': tq.text(kr, 600)})
 
